@@ -136,7 +136,7 @@ Ante(S) ==
        [] c \in {"C02", "C12"} -> IsTransfer(S)
        [] c = "C04" -> HasFee(S)
        [] c = "C05" -> IsTransfer(S) \/ (IsOrbiterPacket(S) /\ S.in.mk = "PAYLOAD" /\ (Unrouted(S.in) \/ Mismatch(S.in)))
-       [] c = "C08" -> (HasPayload(S) /\ (Blocked(S.pre, Dst(S)) \/ S.pre.pProto \cup S.pre.pCC # {})) \/ IsPauseMsg(S)
+       [] c = "C08" -> (HasPayload(S) /\ (S.pre.pProto # {} \/ S.pre.pCC # {})) \/ IsPauseMsg(S)
        [] c = "C09" -> (HasPayload(S) /\ S.pre.pAct # {}) \/ (IsAdmin(S) /\ S.in.rpc \in ActionRpcs)
        [] c = "C10" -> IsAdmin(S)
        [] c = "C11" -> IsOrbiterPacket(S) /\ S.ctl.clean.run /\ \E d \in Denom : S.pre.bal["orb"][d] > 0
